@@ -1,7 +1,10 @@
 use std::{marker::PhantomData, sync::Arc};
 
 use log::info;
+#[cfg(not(feature = "verif"))]
 use parking_lot::RwLock;
+#[cfg(feature = "verif")]
+use rawdb::verif::RwLock;
 use rawdb::{Reader, likely, unlikely};
 
 mod any_stored_vec;
@@ -87,6 +90,12 @@ where
             pages: Arc::new(RwLock::new(pages)),
             _strategy: PhantomData,
         };
+        #[cfg(feature = "verif")]
+        rawdb::verif::register_lock(
+            rawdb::verif::lock_addr(&this.pages),
+            rawdb::verif::LockClass::Pages,
+            this.base.region().verif_addr(),
+        );
 
         let len = this.real_stored_len();
         *this.base.mut_prev_stored_len() = len;
